@@ -19,9 +19,10 @@ def _neg_entry(r, shape, lo=0.0, hi=5.0):
 
 
 def gen(r, cls):
-    """descriptor {cls, args..., expect: 'raise'|'ok'}"""
+    """descriptor {cls, args..., expect: 'raise'|'ok'}; `reuse`: the operator object has already been applied
+    to a valid state matrix before (application-time guards must not depend on the history of the object)"""
     valid = r.random() < 0.35
-    d = {"cls": cls, "expect": "ok" if valid else "raise"}
+    d = {"cls": cls, "expect": "ok" if valid else "raise", "reuse": bool(r.random() < 0.5)}
     if cls == "duration":
         kind = ["T", "E", "S", "Wait", "Phi", "P", "R", "Adc?"][r.integers(7)]
         shape = _rshape(r)
@@ -243,6 +244,8 @@ def run_real(d, epg):
                     epg.simulate([epg.T(30, 0), op, epg.ADC], kgrid=0.1)
                 else:
                     sm = epg.StateMatrix(kgrid=0.1) if g == "sm" else epg.StateMatrix()
+                    if d["reuse"]:
+                        op(epg.T(30, 0)(epg.StateMatrix(kgrid=0.1)))
                     op(epg.T(30, 0)(sm))
             elif cls == "states":
                 epg.StateMatrix(d["states"])
@@ -254,12 +257,22 @@ def run_real(d, epg):
                 sm = epg.StateMatrix(shape=tuple(d["smshape"]))
                 osh = tuple(d["opshape"])
                 via = d["via"]
+                good = epg.StateMatrix(shape=osh)
                 if via == "T":
-                    epg.T(np.full(osh, 30.0), 0)(sm)
+                    op = epg.T(np.full(osh, 30.0), 0)
+                    if d["reuse"]:
+                        op(good)
+                    op(sm)
                 elif via == "E":
-                    epg.E(5, 100, np.full(osh, 10.0))(sm)
+                    op = epg.E(5, 100, np.full(osh, 10.0))
+                    if d["reuse"]:
+                        op(good)
+                    op(sm)
                 elif via == "multi":
-                    (epg.T(np.full(osh, 30.0), 0) * epg.E(5, 100, 10))(sm)
+                    op = epg.T(np.full(osh, 30.0), 0) * epg.E(5, 100, 10)
+                    if d["reuse"]:
+                        op(good)
+                    op(sm)
                 else:
                     epg.simulate([epg.T(np.full(osh, 30.0), 0), epg.ADC], init=sm)
             elif cls == "kinetic":
@@ -268,6 +281,8 @@ def run_real(d, epg):
                     epg.X(5.0, -abs(float(K.flat[1])) - 0.1)
                 else:
                     op = epg.X(5.0, K)
+                    if d["reuse"] and d["how"] in ("valid", "noconserve"):
+                        op(epg.StateMatrix(density=np.ones(len(dens))))
                     sm = epg.StateMatrix(density=dens)
                     op(sm)
             elif cls == "diffusion":
